@@ -16,6 +16,7 @@ import time
 import warnings
 
 from harness.common import Run, coq_list
+from harness.translate import c13_calls
 
 META = dict(
     technique="Coq theorems on the store-of-States + generator-tape model of Api/ApiModel.v (public calls as operation scripts: a script "
@@ -35,7 +36,11 @@ META = dict(
                "state._values, caller DataFrame / Data / Dataset / AlgorithmSettings / IndividualParameters, repeat-call identity and "
                "identity with the same call on load(save(copy of the model)). History independence is REFUTED for scipy_minimize "
                "(C13_scipy_start_refuted, finding F6) and reproduced on the code.",
-    level_note="Not covered by proof: pandas / joblib aliasing of caller tables and Data objects (snapshots only), the optimiser and "
+    level_note="Source-level tie (extension): harness/translate/c13_calls.py regenerates coq/gen/GenC13.v (estimate, MCMC personalisation, "
+               "scipy_minimize as programs over named objects, the footprint of simulate, the kind of copy of the settings) from the "
+               "python ast; Api/SrcProg*.v prove for every instance that they denote the scripts of Api/ApiCalls.v with the theorems' shape "
+               "predicates (C13_src_*), and every recorded call is checked inside Coq to be an execution of the generated program. "
+               "Not covered by proof: pandas / joblib aliasing of caller tables and Data objects (snapshots only), the optimiser and "
                "samplers (arbitrary bodies in the theorems), n_jobs > 1, GPU. Trusted: Coq kernel, harness/recorder.py (wraps State "
                "methods and RNG entry points in-process), the canonical digests of tensors / tables / objects in this file.",
     design_ref="DESIGN.md section 4 C13, section 6 F6",
@@ -52,6 +57,27 @@ OBLIGATIONS = [
     "C13_state_interface_discharged", "C13_estimate_pure_state", "C13_simulate_pure_state", "C13_mcmc_clean_state",
     "C13_history_independent_state", "C13_state_examples",
 ]
+
+SRC_OBLIGATIONS = [
+    # source-level tie (Api/SrcProg*.v): the programs regenerated from today's source denote the scripts above
+    "C13_src_estimate_pure", "C13_src_mcmc_call_clean", "C13_src_scipy_call_pure", "C13_src_simulate_pure", "C13_src_settings_copied", "C13_src_examples",
+]
+OBLIGATIONS += SRC_OBLIGATIONS
+
+
+def translate(run: Run) -> bool:
+    """T1: regenerate coq/gen/GenC13.v (the public calls as source-level programs) from $VERIF_REPO; fail closed."""
+    try:
+        ok = c13_calls.translate(run)
+    except Exception as e:  # noqa - an AST shape the translator has never met must not stop the search
+        import traceback
+        run.broken("translate:GenC13", f"translator crashed: {type(e).__name__}: {e}\n{traceback.format_exc()[-800:]}", kind="broken-translation")
+        ok = False
+    if not ok:
+        # never leave the programs of an earlier run behind: the proofs must not be checked against a stale translation
+        run.gen("GenC13", "(* the translation of this run FAILED (harness/translate/c13_calls.py): no program *)\n")
+    return ok
+
 
 SCRATCH = f"/tmp/scratch/c13-check-{os.getpid()}"
 F6_SIG = "scipy_minimize:start-point-from-individual-values-left-by-fit"
@@ -868,6 +894,81 @@ def coq_nats(l):
     return coq_list([str(int(x)) for x in l])
 
 
+SRC_HEADER = ("From Coq Require Import List Arith Bool String. Import ListNotations.\n"
+              "From Leaspy Require Import Api.ApiModel Api.ApiInst Api.ApiTie Api.ApiCalls Api.ApiCallsTie Api.SrcProg Api.SrcProgTie.\n")
+SRC_CASE = "sinst * list (option unit) * list rop"
+
+
+def coq_s(x: str) -> str:
+    return '"' + x.replace('"', '""') + '"%string'
+
+
+def coq_sinst(var_ix, groups, n, keys=None, reads=None, work=None, rep=None):
+    """Static part of an instance of Api/SrcProg.v (SrcProgTie.sinst) as a Coq literal."""
+    names = coq_list([f"({coq_s(k)}, {v})" for k, v in sorted(var_ix.items())])
+    g = [coq_nats(groups.get(k, [])) for k in ("obs", "ind", "params", "hyper", "scal")]
+    ks = coq_list([f"({coq_s(d)}, {coq_list([coq_nats(l) for l in per])})" for d, per in sorted((keys or {}).items())])
+    rd = coq_list([f"({v}, {coq_nats(l)})" for v, l in sorted((reads or {}).items())])
+    wk = coq_list([f"({coq_s(tag)}, {coq_list([coq_trace(t) for t in per])})" for tag, per in sorted((work or {}).items())])
+    rp = coq_list([f"({coq_s(tag)}, {coq_nats(per)})" for tag, per in sorted((rep or {}).items())])
+    return f"(SInst {names} {' '.join(g)} {n} {ks} {rd} {wk} {rp})"
+
+
+def model_groups(model, var_ix):
+    cls = var_classes(model)
+    return dict(obs=[var_ix[om.name] for om in model.obs_models],
+                ind=[var_ix[n] for n in sorted(n for n in var_ix if cls[n] == "IndividualLatentVariable")],
+                params=[var_ix[n] for n in model.parameters_names],
+                hyper=[var_ix[n] for n in model.hyperparameters_names])
+
+
+def cut_mcmc(t, g, var_ix):
+    """Instance parts of a recorded MCMC personalisation that the program leaves open: what the initialisation functions read,
+    the sampler activity (everything between the initial values and the first clone), the keys assigned on the last clone.
+    A wrong cut is harmless: Coq re-derives the script from the program and compares it with the WHOLE trace."""
+    pos = 3 + 1 + len(g["obs"])
+    reads = {}
+    for n in g["ind"]:
+        r = []
+        while pos < len(t) and not (t[pos][0] in (1, 2) and t[pos][1] == 0 and t[pos][2] == n):
+            if t[pos][0] == 3:
+                break
+            r.append(t[pos][2])
+            pos += 1
+        reads[n] = r
+        pos += 1
+    end = next((i for i in range(pos, len(t)) if t[i][0] == 3), len(t))
+    work = t[pos:end]
+    last = max((i for i, e in enumerate(t) if e[0] == 3), default=len(t))
+    keys = [e[2] for e in t[last + 2 + len(g["obs"]):]]
+    return reads, work, keys
+
+
+def cut_scipy(t, g, n_ind):
+    """Scalings read on the model's state, then per individual the activity of put_individual_parameters and of the optimiser
+    (maximal runs of operations on that individual's clone)."""
+    pos = 3
+    scal = []
+    while pos < len(t) and t[pos][0] == 0 and t[pos][1] == 0:
+        scal.append(t[pos][2])
+        pos += 1
+    put, pat = [], []
+    for j in range(n_ind):
+        pos += 2 + len(g["obs"])
+        w = []
+        while pos < len(t) and (t[pos][0] == 6 or (t[pos][1] == j + 1 and t[pos][0] not in (3, 7, 8))):
+            w.append(t[pos])
+            pos += 1
+        put.append(w)
+    for j in range(n_ind):
+        w = []
+        while pos < len(t) and (t[pos][0] == 6 or (t[pos][1] == j + 1 and t[pos][0] not in (3, 7, 8))):
+            w.append(t[pos])
+            pos += 1
+        pat.append(w)
+    return scal, put, pat
+
+
 def record_call(model, op, kind):
     from harness.recorder import Recorder
     built, _ = build_inputs(model, op, kind)
@@ -877,13 +978,14 @@ def record_call(model, op, kind):
     return rec.events, res
 
 
-def trace_tie(run: Run, thorough: bool):
-    """Recorded State operations of the real calls vs the model's scripts, inside Coq."""
+def trace_tie(run: Run, thorough: bool, src_ok: bool = False):
+    """Recorded State operations of the real calls vs the model's scripts (and, when the translation of this run succeeded,
+    vs the programs regenerated from the source), inside Coq."""
     from harness import synth
     from leaspy.models import BaseModel
     wd = tmpdir()
-    cases = {"estimate": [], "simulate": [], "mcmc": [], "scipy": []}
-    meta = {"estimate": [], "simulate": [], "mcmc": [], "scipy": []}
+    cases = {k: [] for k in ("estimate", "simulate", "mcmc", "scipy", "estimate_src", "mcmc_src", "scipy_src", "simulate_src")}
+    meta = {k: [] for k in cases}
     kinds = ["logistic", "linear", "joint"] + (["shared_speed_logistic"] if thorough else [])
     try:
         for kind in kinds:
@@ -915,6 +1017,11 @@ def trace_tie(run: Run, thorough: bool):
                 except EncodeError as e:
                     tie_broken(run, "estimate", "foreign-state", str(e), dict(kind=kind, ops=[op], history=hist))
                     t = None
+                if t is not None and src_ok:
+                    g = model_groups(model, var_ix)
+                    si = coq_sinst(var_ix, g, len(tp), keys={"individual_parameters": [[var_ix[n] for n in ip[i].keys()] for i in tp]})
+                    cases["estimate_src"].append(f"({'true' if kind == 'joint' else 'false'}, {si}, {shape}, {coq_trace(t)})")
+                    meta["estimate_src"].append(dict(kind=kind, history=hist, op=op, trace=t))
                 if t is not None:
                     cases["estimate"].append(f"({anc_l}, {coq_nats(kept)}, {var_ix['t']}, {coq_nats([var_ix[n] for n in outs])}, {reqs}, {shape}, {coq_trace(t)})")
                     meta["estimate"].append(dict(kind=kind, history=hist, op=op, trace=t))
@@ -925,6 +1032,9 @@ def trace_tie(run: Run, thorough: bool):
                         ev, res = record_call(model, op, kind)
                         try:
                             t = encode_call(ev, var_ix)
+                            if src_ok:
+                                cases["simulate_src"].append(f"({coq_sinst(var_ix, model_groups(model, var_ix), 0)}, {coq_trace(t)})")
+                                meta["simulate_src"].append(dict(kind=kind, history=hist, op=op, trace=t))
                             cases["simulate"].append(f"({anc_l}, {coq_nats(kept)}, {shape}, {coq_trace(t)})")
                             meta["simulate"].append(dict(kind=kind, history=hist, op=op, trace=t))
                         except EncodeError as e:
@@ -935,6 +1045,13 @@ def trace_tie(run: Run, thorough: bool):
                 if not (isinstance(res, tuple) and res and res[0] == "exc"):
                     try:
                         t = encode_call(ev, var_ix)
+                        if src_ok:
+                            g = model_groups(model, var_ix)
+                            scal, put, pat = cut_scipy(t, g, 2)
+                            g["scal"] = scal
+                            si = coq_sinst(var_ix, g, 2, work={"put_individual_parameters": put, "patient": pat})
+                            cases["scipy_src"].append(f"({si}, {shape}, {coq_trace(t)})")
+                            meta["scipy_src"].append(dict(kind=kind, history=hist, op=op, trace=t))
                         cases["scipy"].append(f"({anc_l}, {coq_nats(kept)}, {coq_nats(dvars)}, {coq_nats(ivars)}, {shape}, 2, {coq_trace(t)})")
                         meta["scipy"].append(dict(kind=kind, history=hist, op=op, trace=t,
                                                   ind_set=all(model.state._values[n] is not None for n in names if var_ix[n] in ivars)))
@@ -953,6 +1070,12 @@ def trace_tie(run: Run, thorough: bool):
                         continue
                     try:
                         t = encode_call(ev, var_ix)
+                        if src_ok:
+                            g = model_groups(model, var_ix)
+                            reads, work, keys = cut_mcmc(t, g, var_ix)
+                            si = coq_sinst(var_ix, g, 3, keys={"pyt_individual_parameters": [keys]}, reads=reads, work={"sampling": [work]})
+                            cases["mcmc_src"].append(f"({si}, {shape}, {coq_trace(t)})")
+                            meta["mcmc_src"].append(dict(kind=kind, history=hist, op=op, trace=t))
                         cases["mcmc"].append(f"({anc_l}, {coq_nats(kept)}, {coq_nats(dvars)}, {coq_nats(ivars)}, {shape}, {coq_trace(t)})")
                         meta["mcmc"].append(dict(kind=kind, history=hist, op=op, trace=t))
                     except EncodeError as e:
@@ -965,16 +1088,25 @@ def trace_tie(run: Run, thorough: bool):
               ("simulate", "list (list nat) * list nat * list (option unit) * list rop", "check_simulate_call"),
               ("mcmc", "list (list nat) * list nat * list nat * list nat * list (option unit) * list rop", "check_mcmc_call"),
               ("scipy", "list (list nat) * list nat * list nat * list nat * list (option unit) * nat * list rop", "check_scipy_call")]
+    if src_ok:
+        checks += [("estimate_src", "bool * " + SRC_CASE, "check_estimate_src"), ("mcmc_src", SRC_CASE, "check_mcmc_src"),
+                   ("scipy_src", SRC_CASE, "check_scipy_src"), ("simulate_src", "sinst * list rop", "check_simulate_src")]
     for name, ty, chk in checks:
+        header = SRC_HEADER if name.endswith("_src") else TIE_HEADER
         if not cases[name]:
             run.broken(f"trace:{name}:no-case", "no recorded call could be encoded", kind="broken-correspondence")
             continue
-        bad = run.vm_bad_indices(f"tie_{name}", TIE_HEADER, ty, cases[name], chk)
+        bad = run.vm_bad_indices(f"tie_{name}", header, ty, cases[name], chk)
         for m in meta[name]:
             run.case(("trace", name, m["kind"], m["history"], json.dumps(m["op"], sort_keys=True)), nontrivial=True)
             run.count("trace_ops", f"{name}:{m['kind']}", len(m["trace"]))
         for i in bad or []:
             m = meta[name][i]
+            if name.endswith("_src"):
+                tie_broken(run, name, "not-an-execution-of-the-generated-program",
+                           f"recorded {name[:-4]} call on a {m['kind']} model ({m['history']}) is not an execution of the program "
+                           f"regenerated from the source (coq/gen/GenC13.v)", dict(kind=m["kind"], history=m["history"], ops=[m["op"]]))
+                continue
             why = explain(name, m)
             tie_broken(run, name, why[0], f"recorded {name} call on a {m['kind']} model ({m['history']}) is not the model's script: {why[1]}",
                        dict(kind=m["kind"], history=m["history"], ops=[m["op"]]))
@@ -1032,12 +1164,17 @@ def explain(name, m):
 # ----------------------------------------------------------------------------- entry points
 
 
-def build_tie(run: Run):
+def build_tie(run: Run, src_ok: bool = False):
     from harness.common import make
     ok, out = make(["theories/Api/ApiCallsTie.vo"], jobs=8)
     if not ok:
         run.broken("build:ApiCallsTie", out[-1500:])
-    return ok
+    ok2 = False
+    if ok and src_ok:
+        ok2, out = make(["theories/Api/SrcProgTie.vo"], jobs=8)
+        if not ok2:
+            run.broken("build:SrcProgTie", out[-1500:])
+    return ok, ok2
 
 
 def customised_call_probe(run: Run):
@@ -1109,6 +1246,10 @@ def main(run: Run):
         "save -> load reproduces the parameters exactly (C12); when it does not (float64 parameters of joint / mixture fits) the "
         "comparison with the fresh object is skipped and counted",
     ]
+    run.assumptions += ["sampling_ok: the samplers of MCMC personalisation assign data / individual variables only (hypothesis of "
+                        "C13_src_mcmc_call_clean, evaluated inside Coq on every recorded call)",
+                        "the opaque callees (samplers, scipy's objective, put_individual_parameters) only touch the State they are handed: "
+                        "checked syntactically by the translator"]
     run.trusted += ["harness/recorder.py (wrappers around State methods and RNG entry points)",
                     "Coq evaluation (vm_compute) of Api/ApiCallsTie.v checkers on encoded traces",
                     "harness/props/c13.py canon(): bit-exact canonical form of tensors, arrays, tables and objects"]
@@ -1119,11 +1260,13 @@ def main(run: Run):
     th = threading.Thread(target=lambda: box.update(results=run_workers(side, seqs, 10 if thorough else 7, 1500 if thorough else 85)))
     th.start()
     try:
+        ok_t = translate(run)
         run.prove("C13", OBLIGATIONS)
         run.log(f"proved {len(run.discharged)}/{len(OBLIGATIONS)} obligations")
-        if build_tie(run):
+        ok_tie, ok_src = build_tie(run, ok_t)
+        if ok_tie:
             use_impl()
-            trace_tie(run, thorough)
+            trace_tie(run, thorough, ok_src)
             run.log("trace correspondence done")
         try:
             use_impl()
